@@ -163,7 +163,7 @@ func TestC04Attribution(t *testing.T) {
 		wrap := rapid.Bool().Draw(t, "viaWrapper")
 		w, err := buildSecure(kind, base, n, rejects, wrap)
 		if err != nil {
-			t.Fatalf("harness: %v", err)
+			t.Fatalf("%s", ev.Tag(fmt.Sprintf("harness: %v", err)))
 		}
 		defer w.close()
 		nOps := rapid.IntRange(1, 12).Draw(t, "ops")
